@@ -464,11 +464,16 @@ Definition ccreate (t : table) (ru : option rule) (v : rec) : result :=
   end.
 (* Save(&struct): UPDATE SET qty, note WHERE id = ? AND region = ?; no row: INSERT ... ON CONFLICT UPDATE ALL
    with the default conflict target = ALL primary fields *)
-Definition csave (t : table) (v : rec) : result :=
+Definition csave_keyed (t : table) (v : rec) : result :=
   match clookup t v with
   | Some _ => mk_result v 1 false 1 (cupd t v (copy_cols [CAge; CEmail] v))
   | None => let r := ccreate t (Some RAll) v in mk_result (res_ret r) (res_ra r) (res_err r) 2 (res_tbl r)
   end.
+(* DB.Save looks at EVERY primary field: a value with a zero-valued key member (id 0 or region "") is a new
+   record — a plain INSERT, whatever rows share its other member *)
+Definition ckey_zero (v : rec) : bool := (r_id v =? 0) || String.eqb (r_name v) "".
+Definition csave (t : table) (v : rec) : result :=
+  if ckey_zero v then ccreate t None v else csave_keyed t v.
 Definition csave_slice (t : table) (vs : list rec) : table * Z :=
   fold_left (fun acc v => let r := ccreate (fst acc) (Some RAll) v in (res_tbl r, snd acc + res_ra r)) vs (t, 0).
 (* Where(map{id, region}).[Attrs(map{note})].[Assign(map{qty})].FirstOrCreate(&dest) *)
